@@ -116,6 +116,38 @@ def check(F, rep, tier):
                 ok = seps == ["-", "-"] and passthru
         if ok: rep.ok("R15.3", "docker = format_semver_with_separators(same fields, '-', '-')", nontrivial_key="docker")
         else: rep.bad("R15.3", "docker-form", "the docker form is not the SemVer string with both separators '-'", dk.where())
+        # and nothing is done to that string afterwards (lower-casing, trimming, replacing)
+        rets = mir.trace_place(dk, [0], transparent=())
+        post = [mir.callee(o.fn.blocks[o.data]["t"]) or "?" for o in rets if o.kind == "call" and not (mir.callee(o.fn.blocks[o.data]["t"]) or "").endswith("format_semver_with_separators")]
+        if rets and not post: rep.ok("R15.3", "the docker form is returned as formatted", nontrivial_key="dockerraw")
+        elif post: rep.bad("R15.3", "docker-postprocessed", "the docker form is post-processed with %s: it is no longer the SemVer string with '+' replaced by '-'" % [c.rsplit("::", 1)[-1] for c in post], dk.where())
+    # ---- R15.8 an absent (null) argument is the empty string for the template functions -----------------------------------------
+    tabs = []
+    for p_, g_ in sorted(F.fns.items()):
+        if not p_.startswith("crate::cli::utils::template::functions::") or "::tests::" in p_: continue
+        gi_ = mir.inlined(F, g_, depth=2, ok=lambda F_, c_, cp, h: h is not None and h.kind != "closure" and cp.startswith("crate::cli::utils::template::functions::")) if g_.kind != "closure" else g_
+        try: sps = mir.sym_paths(gi_, limit=4000)
+        except mir.TooManyPaths: continue
+        tab = {}
+        for sp in sps:
+            vars_ = None
+            for d, truth, b in sp.facts():
+                if isinstance(truth, tuple) and d[0] == "discr":
+                    st_ = gi_.blocks[b]["s"][-1] if gi_.blocks[b]["s"] else None
+                    if st_ and st_[0] == "=" and st_[2][0] == "discr" and ("serde_json::Value" in str(st_[2][2]) or "tera::Value" in str(st_[2][2])) and "Option<" not in str(st_[2][2]):
+                        names = {v_: n_ for v_, n_ in st_[2][3]}
+                        if truth[0] == "eq": cur = {names.get(v_) for v_ in truth[1]}
+                        else: cur = {n_ for v_, n_ in names.items() if v_ not in truth[1]}       # the `_ =>` / `other =>` arm
+                        vars_ = cur if vars_ is None else (vars_ & cur)
+            if vars_ and gi_.d.get("ret", "").endswith("String"):
+                for var in vars_: tab.setdefault(var, set()).add(mir.show(sp.ret())[:60])
+        if tab: tabs.append((g_, tab))
+    for g_, tab in tabs:
+        if "String" in tab or "Null" in tab:
+            nul = tab.get("Null")
+            if nul and all(x in ("new()", "to_string('')", "from('')", "default()") or x.endswith("String::new()") for x in nul): rep.ok("R15.8", "a null (absent) template argument becomes the empty string", sample=str(sorted(nul)), nontrivial_key="null" + g_.path)
+            elif nul: rep.bad("R15.8", "null-not-empty", "a null (absent) template argument is turned into %s instead of the empty string: prefix_if / sanitize / prefix see text where there is none" % sorted(nul), g_.where())
+            else: rep.bad("R15.8", "null-not-empty", "the Value -> text conversion of the template functions has no arm that maps Null to the empty string (arms: %s)" % sorted(tab), g_.where())
     # ---- R15.4 scalar wiring -----------------------------------------------------------------------------------------
     n = 0
     for name in SCALARS:
